@@ -9,7 +9,7 @@ CONSTANTS Paths = {1}
           EmitOn = FALSE
           Sim = FALSE
 INIT Init
-NEXT Next
+NEXT NextAll
 INVARIANT Fresh
 INVARIANT DictFresh
 INVARIANT StaleHasCause
